@@ -62,6 +62,7 @@ PROPS['C13']={
                 {'name':'determinism_3links','module':'harness.C13','cls':'Determinism','quick':{'nlinks':3,'all_valid':True,'rate':400},'thorough':{'nlinks':3,'all_valid':True,'rate':400}},
                 {'name':'determinism_two_steps','module':'harness.C13','cls':'Determinism','tier_only':'thorough','quick':{},'thorough':{'nlinks':2,'two_steps':True}},
                 {'name':'history_independence','module':'harness.C13','cls':'HistoryIndependence','quick':{},'thorough':{}},
+                {'name':'verdict_after_many_failed_verifications','module':'harness.C13','cls':'RepeatedFailures','quick':{'ns':[1,10,40]},'thorough':{'ns':[1,10,40,150]}},
                 {'name':'determinism_duplicate_signatures','module':'harness.C13','cls':'Determinism','quick':{'nlinks':1,'nsig':2},'thorough':{'nlinks':2,'nsig':2}},
                 {'name':'rule_engine_digest_tables','module':'harness.C03','cls':'Rules','quick':{'group':'algs','rate':4},'thorough':{'group':'algs','rate':2}}]}
 
@@ -149,6 +150,7 @@ PROPS['C14']={
   {'name':'rules_non_normal','module':'harness.C14','cls':'RulesNonNormal','quick':{},'thorough':{}},
   {'name':'rules_match_prefix_edges','module':'harness.C14','cls':'RulesMatchPrefixEdges','quick':{},'thorough':{},'validate':{'quick':8,'thorough':24}},
   {'name':'rules_long_paths','module':'harness.C14','cls':'RulesLongPaths','quick':{'lens':[255,4097]},'thorough':{'lens':[255,4000,4097,70000]},'validate':{'quick':6,'thorough':16}},
+  {'name':'rules_many_patterns','module':'harness.C14','cls':'RulesManyPatterns','quick':{'counts':[200]},'thorough':{'counts':[200,1100]},'validate':{'quick':6,'thorough':12}},
   {'name':'importers','module':'harness.C14','cls':'Importers','quick':{},'thorough':{}},
   {'name':'pae_prefix','module':'harness.C20','cls':'UnpackTotal','quick':{'n':6,'shape':'prefix'},'thorough':{'n':9,'shape':'prefix'}},
   {'name':'pae_free','module':'harness.C20','cls':'UnpackTotal','quick':{'n':7,'shape':'free'},'thorough':{'n':8,'shape':'free'}},
